@@ -236,12 +236,30 @@ func TestC04(t *testing.T) {
 	if evid.Thorough() {
 		maxLen = 2500
 	}
-	rapid.Check(t, func(rt *rapid.T) {
+	rapid.Check(t, func(rt *rapid.T) { c04Case(rt, rec, maxLen, 0) })
+	rec.Exhaustive("every cut offset of each generated stream x 3 terminations", true)
+}
+
+// TestC04Big: the same check on streams with messages of up to 70000 bytes (sizes
+// beyond the buffers and fast paths an implementation may have for small
+// messages), with a sample of the cut offsets: every offset within 2 bytes of a
+// frame boundary or header end, plus 40 drawn ones.
+func TestC04Big(t *testing.T) {
+	rec := evid.For("C04")
+	rapid.Check(t, func(rt *rapid.T) { c04Case(rt, rec, 70000, 40) })
+}
+
+func c04Case(rt *rapid.T, rec *evid.Rec, maxLen, sample int) {
+	{
 		mode := rapid.SampledFrom(c03Modes).Draw(rt, "mode")
 		deflate := mode.Mode != websocket.CompressionDisabled
 		takeover := deflate && (mode.Name == "server/takeover" || mode.Name == "client/takeover" || mode.Name == "client/takeover-client_no_ctx-resp")
 		flavour := rapid.SampledFrom([]string{"generic", "generic", "binary", "json"}).Draw(rt, "flavour")
-		msgs, frames := genInStream(rt, inStreamOpts{Deflate: deflate, Takeover: takeover, MaxMsgs: 5, MaxLen: maxLen, MaxFrags: 4, Controls: true, AllowBFin: true, JSONish: flavour == "json"})
+		maxMsgs := 5
+		if sample > 0 {
+			maxMsgs = 2
+		}
+		msgs, frames := genInStream(rt, inStreamOpts{Deflate: deflate, Takeover: takeover, MaxMsgs: maxMsgs, MaxLen: maxLen, MaxFrags: 4, Controls: true, AllowBFin: true, JSONish: flavour == "json"})
 		if flavour == "binary" {
 			for i := range frames {
 				if frames[i].Opcode == ref.OpText {
@@ -277,9 +295,19 @@ func TestC04(t *testing.T) {
 		for _, m := range msgs {
 			shape += fmt.Sprintf("|%v%v%d/%d", m.Compressed, m.Variant, len(m.Frags), lenClass(m.Len))
 		}
+		var drawn map[int]bool
+		if sample > 0 {
+			drawn = map[int]bool{}
+			for i := 0; i < sample; i++ {
+				drawn[rapid.IntRange(0, len(stream)).Draw(rt, "cutAt")] = true
+			}
+		}
 		var fail string
 		rapid.SyncTest(rt, func(rt *rapid.T) {
 			for cut := 0; cut <= len(stream) && fail == ""; cut++ {
+				if drawn != nil && !drawn[cut] && !boundary[cut] {
+					continue
+				}
 				pos, inside := cutPosition(frames, ends, cut)
 				for ki, k := range c04Kinds {
 					use := []string{apis[(cut+ki)%len(apis)]}
@@ -318,6 +346,5 @@ func TestC04(t *testing.T) {
 		if fail != "" {
 			rt.Fatalf("C04 %s", fail)
 		}
-	})
-	rec.Exhaustive("every cut offset of each generated stream x 3 terminations", true)
+	}
 }
